@@ -1,5 +1,6 @@
 import GormModel.Drv.Util
 import GormModel.Model.Upsert
+import GormModel.Model.UpsertClause
 open Lean
 namespace Gorm.Drv
 open Gorm.Upsert
@@ -141,6 +142,62 @@ def asgJ (c : Nat) : Asg → Json
   | .excluded => Json.arr #[natJ c, Json.null]
   | .lit x => Json.arr #[natJ c, natJ x]
 
+def parseTerm : Nat → Json → Option Upsert.Term
+  | 0, _ => none
+  | fuel + 1, j => do
+    let a ← jArr? j
+    let n ← jStr? (arg a 0)
+    match n with
+    | "o" => some (.old (← jNat? (arg a 1)))
+    | "e" => some (.exc (← jNat? (arg a 1)))
+    | "#" => some (.lit (← jNat? (arg a 1)))
+    | "+" => some (.add (← parseTerm fuel (arg a 1)) (← parseTerm fuel (arg a 2)))
+    | _ => none
+
+def parseCmp (j : Json) : Option Cmp := do
+  match ← jStr? j with
+  | "=" => some .eq | "<>" => some .ne | ">" => some .gt | "<" => some .lt
+  | _ => none
+
+def parseGuard (j : Json) : Option Guard := do
+  let a ← jArr? j
+  some { l := ← parseTerm 6 (arg a 0), op := ← parseCmp (arg a 1), r := ← parseTerm 6 (arg a 2) }
+
+def parseUpd (j : Json) : Option (Nat × Upsert.Term) := do
+  let a ← jArr? j
+  some (← jNat? (arg a 0), ← parseTerm 6 (arg a 1))
+
+def fld (j : Json) (k : String) : Json := (j.getObjVal? k).toOption.getD Json.null
+
+def parseOC (j : Json) : Option OC := do
+  let cols ← parseNats (fld j "cols")
+  let w ← (← jArr? (fld j "where")).toList.mapM parseGuard
+  let tw ← (← jArr? (fld j "tw")).toList.mapM parseGuard
+  let cons ← jStr? (fld j "cons")
+  let dn ← jBool? (fld j "nothing")
+  let du ← (← jArr? (fld j "updates")).toList.mapM parseUpd
+  let all ← jBool? (fld j "all")
+  some { columns := cols, where_ := w, targetWhere := tw, onConstraint := cons, doNothing := dn, doUpdates := du, updateAll := all }
+
+def termJ : Upsert.Term → Json
+  | .old c => Json.arr #[Json.str "o", natJ c]
+  | .exc c => Json.arr #[Json.str "e", natJ c]
+  | .lit v => Json.arr #[Json.str "#", natJ v]
+  | .add a b => Json.arr #[Json.str "+", termJ a, termJ b]
+
+def guardJ (g : Guard) : Json := Json.arr #[termJ g.l, Json.str g.op.tok, termJ g.r]
+
+def ocJ (oc : OC) : Json :=
+  Json.mkObj [("cols", natListJ oc.columns), ("where", Json.arr (oc.where_.map guardJ).toArray),
+    ("tw", Json.arr (oc.targetWhere.map guardJ).toArray), ("cons", Json.str oc.onConstraint),
+    ("nothing", Json.bool oc.doNothing),
+    ("updates", Json.arr (oc.doUpdates.map (fun a => Json.arr #[natJ a.1, termJ a.2])).toArray),
+    ("all", Json.bool oc.updateAll)]
+
+def parseMods (j : Json) : Option Mods := do
+  let a ← jArr? j
+  some { star := ← jBool? (arg a 0), sel := ← parseNats (arg a 1), om := ← parseNats (arg a 2), omitOther := ← jBool? (arg a 3) }
+
 end HC16
 
 open HC16 in
@@ -173,6 +230,29 @@ def handleC16 (op : String) (args : Array Json) : Option Json := do
     let cols := List.range sch.ncols
     some (Json.mkObj [("ins", natListJ (cols.filter ins)),
       ("set", Json.arr (cols.filterMap (fun c => (updateAllIns sch src ins c).map (asgJ c))).toArray)])
+  | "c16.save" =>
+    -- ["c16.save", kinds, rows, next, [star, sel, om, omitOther], row] -> {rows,…}: Save under Select/Omit (genSaveCfg)
+    let sch ← parseSchema (arg args 1)
+    let st ← parseStore (arg args 2) (arg args 3)
+    let m ← parseMods (arg args 4)
+    let v ← parseRow (arg args 5)
+    some (outJ sch (saveFrom genSaveCfg sch st m v))
+  | "c16.oc" =>
+    -- ["c16.oc", kinds, src, row, oc, old|null, excluded|null] -> {oc: the clause after gorm's rewriting (every field),
+    --   render: its token list, row: the conflicting row after the rule (when old/excluded are given)}
+    let sch ← parseSchema (arg args 1)
+    let src ← parseSrc (arg args 2)
+    let v ← parseRow (arg args 3)
+    let oc ← parseOC (arg args 4)
+    let ins := src.listed sch v
+    let hasCols := (List.range sch.ncols).any ins
+    let oc' := oc.expand sch src ins hasCols
+    let row : Json := match parseRow (arg args 5), parseRow (arg args 6) with
+      | some o, some p => rowJ sch (oc'.onRow o p)
+      | _, _ => Json.null
+    some (Json.mkObj [("oc", ocJ oc'), ("render", strListJ oc'.render), ("row", row)])
+  | "c16.gensave" =>
+    some (Json.arr #[Json.bool genSaveCfg.selBySelects, Json.bool genSaveCfg.selByOmits])
   | "c16.genrecvw" =>
     some (Json.arr ([FinKind.save, .create, .firstOrInit, .firstOrCreate].map (fun k =>
       Json.arr ([Fld.clauses, .attrs, .assigns].map (fun f => Json.bool (genRecvW k f))).toArray)).toArray)
